@@ -239,6 +239,9 @@ class StmtMixin:
         raise Unsupported("assignment target %s" % type(tgt).__name__)
 
     def store_attr(self, o, attr, v, st, node):
+        if isinstance(o, VOpt):
+            return self.guard(st, z3.Not(o.isnone), 'AttributeError', 'none-setattr', node,
+                              lambda s: self.store_attr(o.inner, attr, v, s, node))
         if o.__class__.__name__ == 'VGhost':
             st.ghost[attr] = v
             return self.ok(st)
@@ -366,6 +369,8 @@ class StmtMixin:
         h, o = st.heap[ref.rid], st.heap[other.rid]
         if o.et is None:
             return
+        if self.const_int(VInt(o.n)) == 0:
+            return                                   # extending by an empty sequence (of whatever element type)
         if h.et is None:
             h = HList(o.et, empty_hlist(o.et).arr, z3.IntVal(0))
         if h.et != o.et:
